@@ -2,10 +2,11 @@
 # usage: tools/try_benign.sh <worktree with a behaviour-preserving change applied> [property ids... (default: all)]
 # runs the quick checks against that tree (GLM_REPO override; /repo is not touched) and reports every non-zero exit / VIOLATION: each one is a false alarm to look at.
 wt=$1; shift
-cd /verif
+V=$(cd "$(dirname "$0")/.." && pwd)
+cd $V
 props=${*:-$(python3 -c "import json;print(' '.join(c['property_id'] for c in json.load(open('MANIFEST.json'))['checks']))")}
-bk=$(mktemp -d /tmp/benign_evidence.XXXXXX); cp -a /verif/evidence $bk/evidence; cp -a /verif/replay $bk/replay 2>/dev/null
-trap 'rm -rf /verif/evidence /verif/replay; cp -a $bk/evidence /verif/evidence; cp -a $bk/replay /verif/replay 2>/dev/null; rm -rf $bk' EXIT INT TERM
+bk=$(mktemp -d /tmp/benign_evidence.XXXXXX); cp -a $V/evidence $bk/evidence; cp -a $V/replay $bk/replay 2>/dev/null
+trap 'rm -rf $V/evidence $V/replay; cp -a $bk/evidence $V/evidence; cp -a $bk/replay $V/replay 2>/dev/null; rm -rf $bk' EXIT INT TERM
 for p in $props; do
   GLM_REPO=$wt ./check $p --tier quick > /tmp/benign_check_$p.log 2>&1; rc=$?
   nv=$(grep -c '^VIOLATION' /tmp/benign_check_$p.log)
